@@ -185,6 +185,32 @@ Proof. exact declared_paths_match_execution. Qed.
 (* root "/r/proj" *)
 Definition ex_root : str := [47;114;47;112;114;111;106].
 
+(* `stepup build TARGET` typed in any directory: tui._normalize_targets resolves the raw target against the
+   working directory it sees at its call sites (generated: targets_normalized_in_user_cwd says every call comes
+   before the `cd` to the project root).  The recorded target designates, from the root, the file the user
+   named from the directory the command was typed in; and it is normalized.  For all roots, directories and
+   raw targets (relative, absolute, with `..`).  The proof needs the generated boolean to be `true`: with the
+   call after the `cd` the statement is false (second example below). *)
+Theorem C20_cli_target_designates_same :
+  forall user_cwd root raw, wf_root root = true -> wf_root user_cwd = true ->
+    resolve root (cli_target user_cwd root raw) = resolve user_cwd raw
+    /\ normalized (cli_target user_cwd root raw) = true.
+Proof.
+  intros u r raw Hr Hu. split; [apply cli_target_designates_same; assumption|apply normalize_target_normalized].
+Qed.
+
+Theorem C20_target_call_sites_before_cd : targets_normalized_in_user_cwd = true /\ target_call_sites <> [].
+Proof. split; [exact target_flag_true|discriminate]. Qed.
+
+(* root /r/proj, command typed in /r/proj/sub, target "here.txt": recorded "sub/here.txt"; had the call seen the
+   root as working directory it would record "here.txt", which is /r/proj/here.txt, another file. *)
+Example C20_ex_cli_target :
+  cli_target [47;114;47;112;114;111;106;47;115;117;98] [47;114;47;112;114;111;106] [104;101;114;101;46;116;120;116] = [115;117;98;47;104;101;114;101;46;116;120;116] /\
+  cli_target [47;114;47;112;114;111;106;47;115;117;98] [47;114;47;112;114;111;106] [46;46;47;100;47] = [100] /\
+  normalize_target [47;114;47;112;114;111;106] [47;114;47;112;114;111;106] [104;101;114;101;46;116;120;116] = [104;101;114;101;46;116;120;116] /\
+  resolve [47;114;47;112;114;111;106] [104;101;114;101;46;116;120;116] <> resolve [47;114;47;112;114;111;106;47;115;117;98] [104;101;114;101;46;116;120;116].
+Proof. vm_compute. repeat split; try reflexivity. discriminate. Qed.
+
 Example C20_ex_wf_root : wf_root ex_root = true /\ wf_root [47] = true /\ wf_root [47;47;110;101;116] = true.
 Proof. vm_compute. repeat split. Qed.
 
